@@ -104,3 +104,7 @@ Definition check_join (i : input) (o : obs) : N :=
   | None, _ | _, None => 4
   | Some a, Some b => code_of a b
   end%N.
+
+(* C11: the observable is whether the caller's document differs from its state before the call.
+   A Gallina evaluation cannot mutate anything, so the model's answer is always "unchanged". *)
+Definition check_pure (i : input) (changed : bool) : N := if changed then 3%N else 0%N.
